@@ -942,7 +942,7 @@ func checkC10Digest(r *Report, p *Prog) {
 	}
 	var elNil, lookOK string
 	for _, name := range sortedKeys(a.Atoms) {
-		if strings.HasPrefix(name, "isnil(") && strings.Contains(name, "FindElement#") && atomLooksUp(a.Atoms[name], "DigestMethod") {
+		if strings.HasPrefix(name, "isnil(") && strings.Contains(name, "FindElement") && atomLooksUp(a.Atoms[name], "DigestMethod") {
 			elNil = name
 		}
 		if strings.HasPrefix(name, "ok:") && strings.Contains(name, "digestMethods") {
@@ -1173,7 +1173,7 @@ func checkUnprefixedPaths(r *Report, p *Prog, rule string) {
 				if !(strings.HasPrefix(nm, "Find") || strings.HasPrefix(nm, "Select")) || len(c.Call.Args) < 2 {
 					continue
 				}
-				path, ok := constStr(c.Call.Args[1])
+				path, ok := etreePathConst(c.Call.Args[1])
 				if !ok {
 					continue
 				}
